@@ -144,6 +144,16 @@ type ExtraViolation struct {
 	Replay              []byte
 }
 
+// Cleaner is implemented by properties that keep per-process scratch state
+// (sandboxes) across runs; it is called before the process exits.
+type Cleaner interface{ Cleanup() }
+
+func cleanup(p Prop) {
+	if c, ok := p.(Cleaner); ok {
+		c.Cleanup()
+	}
+}
+
 type Description struct {
 	Rule                        string
 	Components                  []Component
@@ -267,9 +277,12 @@ func Main(p Prop) {
 	}
 	switch {
 	case *replay != "":
-		os.Exit(doReplay(p, *replay))
+		rc := doReplay(p, *replay)
+		cleanup(p)
+		os.Exit(rc)
 	case *worker:
 		runWorker(p, seed, *tier, *from, *stride, *count, *deadline)
+		cleanup(p)
 	case *one >= 0:
 		rs := sim.RunSeed(seed, uint64(*one))
 		ch := sim.NewChoices(rs)
@@ -284,11 +297,14 @@ func Main(p Prop) {
 			fmt.Printf("choices %s\n", EncodeChoices(res.Choices))
 		}
 		fmt.Printf("run %d seed %d hash %x steps %d violation %q %s\n", *one, rs, res.TraceHash, res.Steps, res.Violation, res.Detail)
+		cleanup(p)
 	default:
 		if !isFlagSet("workers") && p.Describe().Workers > 0 {
 			*workers = p.Describe().Workers
 		}
-		os.Exit(batch(p, seed, *tier, *count, *budget, *workers, *noMin))
+		rc := batch(p, seed, *tier, *count, *budget, *workers, *noMin)
+		cleanup(p)
+		os.Exit(rc)
 	}
 }
 
